@@ -3,7 +3,7 @@
 #   demo passes on the unchanged tree, the change compiles, the 195 baseline test cases still pass, the demo fails with the change.
 # Results are appended to <seed dir>/confirmed.txt.  The worktree is removed at the end.
 set -u
-W=/tmp/confirm-wt
+W=${W:-/tmp/confirm-wt}
 git -C /repo worktree remove --force $W 2>/dev/null
 git -C /repo worktree add -q --detach $W ${BASE:-HEAD} || exit 3
 python3 /verif/tools/run_baseline.py $W/_build > $W/base.log 2>&1; echo "baseline suite: $(head -1 $W/base.log)"
